@@ -159,6 +159,17 @@ def enumerate_configs(tier: str):
                     yield {"entry": ename, "integration": integ, "physical": phys, "arity": arity,
                            "logical": 1 if arity == 3 else 2, "delimited": delimited, "frame_size": fs, "flow": "inferred",
                            "flow_logical": None, "n": n, "collect": False, "wide": wide, "preset": list(preset)}
+    # the flat convenience entry points fed PLAIN (s, p, o[, g]) tuples (what Graph.triples() / Dataset.quads() yield) and/or
+    # no options at all (everything guessed from the first statement)
+    for (ename, integ, explicit), n, arity, plain, how in itertools.product(
+            [e for e in ENTRIES if e[0] in ("g_flat_to_file", "r_flat_to_file")], ns, (3, 4), (False, True), ("none", "unspecified", "given")):
+        if integ == "generic" and plain:
+            continue
+        if how == "given" and not plain:
+            continue                      # that is the main lattice
+        yield {"entry": ename, "integration": integ, "physical": 0, "arity": arity, "logical": 0 if how != "given" else (1 if arity == 3 else 2),
+               "delimited": True, "frame_size": 3, "flow": "inferred", "flow_logical": None, "n": n, "collect": False,
+               "plain_tuples": plain, "options_how": how}
     for n in ns:
         for arity in (3, 4):
             # a sink filled by sink.parse(<file>) rather than by add(), written out again with guessed options
@@ -238,7 +249,7 @@ def run_config(c: dict) -> dict:
                 for fr in _maybe_list(gser.stream_frames(stream, (T.stmt_to_generic(s) for s in stmts)), c):
                     write(fr, out)
             elif e == "g_flat_to_file":
-                gser.flat_stream_to_file((T.stmt_to_generic(s) for s in stmts), out, options=options)
+                gser.flat_stream_to_file((T.stmt_to_generic(s) for s in stmts), out, options=None if c.get("options_how") == "none" else options)
             elif e == "g_grouped_to_file":
                 gser.grouped_stream_to_file((s for s in [pj.generic_sink_of(stmts, binds)]), out, options=options)
             elif e == "r_serialize_stream":
@@ -249,7 +260,8 @@ def run_config(c: dict) -> dict:
                 store = pj.rdflib_store_of(stmts, binds, dataset=c["arity"] == 4, empty_graphs=eg)
                 store.serialize(out, format="jelly", options=options)
             elif e == "r_flat_to_file":
-                rser.flat_stream_to_file((T.stmt_to_rdflib(s) for s in stmts), out, options=options)
+                conv = (lambda st: tuple(T.stmt_to_rdflib(st))) if c.get("plain_tuples") else T.stmt_to_rdflib
+                rser.flat_stream_to_file((conv(s) for s in stmts), out, options=None if c.get("options_how") == "none" else options)
             elif e == "r_grouped_to_file":
                 store = pj.rdflib_store_of(stmts, binds, dataset=c["arity"] == 4, empty_graphs=eg)
                 rser.grouped_stream_to_file((s for s in [store]), out, options=options)
@@ -275,8 +287,10 @@ def run_config(c: dict) -> dict:
 def expected(c: dict, res: dict) -> list:
     stmts = res["stmts"]
     phys = res["streams"][0]["physical"] if res.get("streams") else None
-    if c["arity"] == 4 and phys == 1:
-        return [s[:3] for s in stmts]           # documented projection of quads onto a TRIPLES stream
+    if c["arity"] == 4 and phys == 1 and (c.get("physical") == 1 or c.get("logical") in (1, 3, 13)):
+        # documented projection of quads onto a TRIPLES stream - when the CALLER asked for one (stream class or a
+        # triples-family logical type); a stream class merely guessed from the data must carry the quads as quads
+        return [s[:3] for s in stmts]
     return stmts
 
 
